@@ -40,6 +40,12 @@ _a("imin32m1", -2 ** 31 - 1, num("-2147483649"))
 _a("i2p32", 2 ** 32, num("4294967296"))
 _a("i2p63", 2 ** 63, num("9223372036854775808"))
 _a("i2p64p1", 2 ** 64 + 1, num("18446744073709551617"))
+# pairs of opposite sign that are congruent modulo a power of 256 (a minimal-width two's complement would merge them)
+_a("i-2p63", -(2 ** 63), num("-9223372036854775808"))
+_a("i2p39m1", 2 ** 39 - 1, num("549755813887"))
+_a("i-2p39m1", -(2 ** 39) - 1, num("-549755813889"))
+_a("i-2p40", -(2 ** 40), num("-1099511627776"))
+_a("i2p48m2p40", 2 ** 48 - 2 ** 40, num("280375465082880"))
 _a("i10p5000", 10 ** 5000, num("10^5000"))        # beyond CPython's int -> decimal str digit limit (4300)
 _a("i-10p5000", -(10 ** 5000), num("-10^5000"))
 _a("f0", 0.0, num("0"), core=True)
